@@ -222,6 +222,15 @@ def onestep_cases(tier):
                             if tc:
                                 stacks[d] = tc
                             cases['body'].append((text, 0, {'stacks': stacks, 'cur': sel}, ''))
+    # many operands: deep stacks, syllable counts up to 9
+    deep = [Fraction(x) for x in (3, -1, 7, 0, 2, 65, -4, 9)]
+    deep2 = [Fraction(1, 2), Fraction(-3, 2), None, Fraction(5), Fraction(2, 3)]
+    for sel in (3, 0):
+        for c in (deep, deep2, deep[:4]):
+            for kind in range(1, 6):
+                for syl in (4, 5, 7, 8, 9):
+                    for d in (0, 1, 3, 4):
+                        cases['body'].append((P.spell(kind, syl, d), 0, {'stacks': {sel: c}, 'cur': sel}, ''))
     # areas: one body per kind
     bodies = [(0, 1, 2), (1, 1, 3), (2, 2, 4), (3, 1, 3), (4, 2, 0), (5, 1, 4), (5, 2, 3)]
     for c in contents(3):
